@@ -32,8 +32,8 @@ def _push(st: State, s, e):
     st.heap["g:xs_len"] = z3.Store(st.heap["g:xs_len"], s, n + 1)
 
 
-def new_lib(eng, st: State, cls: str) -> SV:
-    a = st.new_ref(owned=False)
+def new_lib(eng, st: State, cls: str, owned=False) -> SV:
+    a = st.new_ref(owned=owned)
     st.set_fld("__class__", a, con(cls))
     return SV(vref(a), LIB(cls))
 
@@ -52,13 +52,14 @@ def register(reg):
     # ------------------------------------------------------------------ constructors
     def mk_stack(eng, st, pos, kw, node):
         st.uses.add("A-XS")
-        v = new_lib(eng, st, "AsyncExitStack")
+        # a new stack is referenced only by its creator until it is stored somewhere or passed on (escape analysis of the engine)
+        v = new_lib(eng, st, "AsyncExitStack", owned=True)
         st.heap["g:xs_len"] = z3.Store(st.heap["g:xs_len"], Val.a(v.t), z3.IntVal(0))
         return [Res(st, v)]
     reg.ext_calls["contextlib.AsyncExitStack"] = mk_stack
 
     def mk_tg(eng, st, pos, kw, node):
-        v = new_lib(eng, st, "TaskGroup")
+        v = new_lib(eng, st, "TaskGroup", owned=True)
         st.heap["g:tg_active"] = z3.Store(st.heap["g:tg_active"], Val.a(v.t), False)
         return [Res(st, v)]
     reg.ext_calls["anyio.create_task_group"] = mk_tg
